@@ -2,6 +2,8 @@
 // Difference, SymmetricDifference, UnaryUnion, UnionMany) on generated pairs and lists of valid
 // geometries and prints one case per line (property C01).
 //
+// A class written "name@k" means: the lattice case was rescaled exactly by 2^k (all operands).
+//
 // Line formats (tab separated); a result is "name|dump|v" (v = 1 when result.Validate() == nil)
 // or "name|ERR|message":
 //
@@ -19,6 +21,7 @@ package main
 import (
 	"encoding/json"
 	"fmt"
+	"math"
 	"strings"
 	"time"
 
@@ -108,6 +111,26 @@ func op2(name string, f func(a, b geom.Geometry) (geom.Geometry, error), a, b ge
 	return res(name, g, err), g, err == nil
 }
 
+// scaleNode returns a copy of n with every X and Y multiplied by 2^k (exact in float64).
+func scaleNode(n *lib.Node, k int) *lib.Node {
+	m := &lib.Node{Kind: n.Kind, CT: n.CT, Full: n.Full}
+	for _, c := range n.C {
+		m.C = append(m.C, [4]float64{math.Ldexp(c[0], k), math.Ldexp(c[1], k), c[2], c[3]})
+	}
+	for _, kid := range n.Kids {
+		m.Kids = append(m.Kids, scaleNode(kid, k))
+	}
+	return m
+}
+
+// scaleExp picks the exponent of the exact rescaling class: 2^-k for k in 10..60, 2^+k for k in 1..40.
+func scaleExp(r *lib.Rng) int {
+	if r.Chance(2, 3) {
+		return -r.Range(10, 60)
+	}
+	return r.Range(1, 40)
+}
+
 func envEq(e, f geom.Envelope) bool {
 	emin, emax, eok := e.MinMaxXYs()
 	fmin, fmax, fok := f.MinMaxXYs()
@@ -175,6 +198,7 @@ func main() {
 	classes := map[string]int{}
 	pairKinds := map[string]int{}
 	listLens := map[int]int{}
+	scaleHist := map[int]int{}
 	for i := 0; i < a.N && timeouts < maxTimeouts; i++ {
 		r := root.Fork()
 		general := i%10 == 7 || i%20 == 19
@@ -197,7 +221,14 @@ func main() {
 			// ---------------- UnionMany / UnaryUnion
 			k := r.Range(0, 6)
 			listLens[k]++
-			classes["many_"+class]++
+			// one list in three is rescaled exactly by a power of two (the same for all members)
+			sc := 0
+			if i%15 == 4 {
+				sc = scaleExp(r)
+				class = fmt.Sprintf("%s@%d", class, sc)
+				classes["many_scaled"]++
+			}
+			classes["many_"+strings.SplitN(class, "@", 2)[0]]++
 			fields := []string{fmt.Sprintf("%d", i), "N", class, fmt.Sprintf("%d", k)}
 			gs := make([]geom.Geometry, k)
 			for j := 0; j < k; j++ {
@@ -206,6 +237,9 @@ func main() {
 					kind = r.Intn(7)
 				}
 				n := g.genOperand(r, kind, &st)
+				if sc != 0 {
+					n = scaleNode(n, sc)
+				}
 				gs[j] = n.Build()
 				fields = append(fields, lib.Dump(gs[j]))
 			}
@@ -239,13 +273,22 @@ func main() {
 		if r.Chance(1, 12) {
 			nb = na // identical operands
 		}
+		// one pair in five is rescaled exactly by a power of two (the same for both operands): the
+		// driver divides it out and judges the result against the lattice operands
+		if pi%5 == 1 {
+			sc := scaleExp(r)
+			na, nb = scaleNode(na, sc), scaleNode(nb, sc)
+			classes["pair_scaled"]++
+			scaleHist[sc/10]++
+			class = fmt.Sprintf("%s@%d", class, sc)
+		}
 		ga, gb := na.Build(), nb.Build()
-		classes["pair_"+class]++
+		classes["pair_"+strings.SplitN(class, "@", 2)[0]]++
 		pairKinds[kindNames[ka]+"x"+kindNames[kb]]++
 		fields := pairFields(i, class, kindNames[ka]+"x"+kindNames[kb], ga, gb)
 		fmt.Fprintln(w, strings.Join(fields, "\t"))
 	}
-	stats := map[string]interface{}{"classes": classes, "pair_kinds": pairKinds, "list_lengths": listLens, "generator": st.m, "overlays_dumped_through_hook": overlaysDumped}
+	stats := map[string]interface{}{"classes": classes, "pair_kinds": pairKinds, "list_lengths": listLens, "generator": st.m, "overlays_dumped_through_hook": overlaysDumped, "scale_exponent_decades": scaleHist}
 	js, _ := json.Marshal(stats)
 	fmt.Fprintf(w, "#GEN\t%s\n", js)
 }
